@@ -22,7 +22,9 @@ type genRns struct {
 	names   []string
 }
 
-var rnsNamePool = []string{"a.jkl", "bb.jkl", "ccc.ibc", "dddd.jkl", "eeeee.jkl", "Ffffff.JKL", "long-name.ibc", "x.ibc", "MiXed.jkl", "seven77.jkl"}
+var rnsNamePool = []string{"a.jkl", "bb.jkl", "ccc.ibc", "dddd.jkl", "eeeee.jkl", "Ffffff.JKL", "long-name.ibc", "x.ibc", "MiXed.jkl", "seven77.jkl",
+	// labels that contain the other TLD, a TLD as label, digits and dashes
+	"ibc.jkl", "jkl.ibc", "xibcx.jkl", "my-jkl-name.ibc", "jkljkl.jkl", "0.jkl"}
 
 func (g *genRns) Config(rng *Rng, tier string) Config {
 	c := baseConfig(rng)
